@@ -1,6 +1,7 @@
 import os, sys, time
 os.environ["MPLCONFIGDIR"]="/verif/.cache/mpl"
 sys.path.insert(0,'/verif'); sys.setrecursionlimit(20000)
+sys.path.insert(0, os.path.realpath(os.environ.get('ARMI_REPO') or '/repo'))  # same override as symx.run
 import armi; armi.configure(permissive=True)
 from symx import engine
 import importlib
